@@ -16,6 +16,8 @@
 #include "common/c14_model.hpp"
 #include "common/c14_obs.hpp"
 
+#include <unordered_map>
+
 using namespace bpp;
 using namespace std;
 using namespace c14;
@@ -60,9 +62,11 @@ struct World {
     gm.nodes = S(g->getAllNodes()); for (Id n : gm.nodes) gm.everNode.insert(n);
     gm.edges.clear(); for (Id e : g->getAllEdges()) gm.edges[e] = g->getNodes(e);
   }
-  unsigned tick = 0;
+  unsigned tick = 0; bool graphOnly = false;
   void checkAll() {
-    unsigned rot = enumMode ? 0u : ++tick;  // random histories: probes expected to raise are made in rotation
+    // bpp::Exception walks and symbolises the call stack in its constructor, so a raising call costs ~0.1 ms: the read-only
+    // probes that are expected to raise are made in rotation (by operation count / by the hash of the sequence)
+    unsigned rot = enumMode ? 1 + static_cast<unsigned>(vf::hashStr(c.desc.str()) % 97) : ++tick;
     checkGraph(c, *g, gm, what, rot);
     for (size_t k = 0; k < obs.size(); ++k) checkObs(c, obs[k], gm, what + " obs" + to_string(k), rot);
   }
@@ -293,8 +297,11 @@ void World::graphOp(int op) {
       if (!la) { run(ILL, [&] { if (op == 9) g->createNodeOnEdge(e); else g->createNodeFromEdge(e); }); break; }
       if (gm.nodes.size() + (op == 9 ? 1 : 2) > maxNodes) return nop();
       if (edgeRemovalKnown(e)) return;
-      // splitting an undirected self-loop a-a links a-new twice
-      if (!gm.directed && gm.edges.at(e).first == gm.edges.at(e).second && known("C14-link-duplicate-pair")) return;
+      if (!gm.directed && gm.edges.at(e).first == gm.edges.at(e).second) {  // splitting an undirected loop a-a would link a-new twice
+        if (known("C14-link-duplicate-pair")) return;
+        if (run(FREE, [&] { if (op == 9) g->createNodeOnEdge(e); else g->createNodeFromEdge(e); })) { if (!S(g->getAllEdges()).count(e)) dropEdge(e); resync(); }
+        break;
+      }
       if (collide(op == 9 ? 2 : 3) && known("C14-edgeid-collision")) return;
       pair<Id, Id> ends = gm.edges.at(e);
       Id r = 0; run(WF, [&] { r = op == 9 ? g->createNodeOnEdge(e) : g->createNodeFromEdge(e); });
@@ -491,7 +498,7 @@ string World::stateKey() const {
 
 void World::stepOp() {
   int op;
-  if (enumMode) op = static_cast<int>(c.below(29));
+  if (enumMode) op = static_cast<int>(c.below(graphOnly ? 12 : 29));
   else {
     static const int tab[] = {0, 1, 2, 3, 4, 5, 6, 7, 8, 9, 10, 11, 12, 13, 14, 15, 16, 17, 18, 19, 20, 21, 22, 23, 24, 25, 26, 27, 28};
     op = tab[c.weighted({6, 8, 5, 3, 3, 2, 3, 1, 1, 2, 1, 1, 5, 5, 6, 4, 3, 2, 1, 2, 1, 1, 2, 2, 2, 2, 1, 1, 1})];
@@ -527,14 +534,14 @@ LAW(H_history, RC, 6000, 300000, 260, NT, 10) {
 // the views are compared with the model after the last operation of every sequence (every prefix is a sequence of an
 // earlier round).  Replays do not prune and check after every operation.
 // The quick / thorough fields are shard counts: L = ENUM_LQ with fewer than ENUM_T shards, else ENUM_LT.
-const int ENUM_Q = 16, ENUM_T = 64, ENUM_LQ = 3, ENUM_LT = 4;
-LAW(E_sequences, ENUM, ENUM_Q, ENUM_T, 0, NT, 5) {
-  static std::unordered_map<std::string, uint64_t> seen;  // state -> hash of the first path that reached it (per process = per shard)
+const int ENUM_T = 64;  // with at least this many shards (thorough tier) the longer length is used
+static void sequences(vf::Ctx& c, bool graphOnly, int lenQuick, int lenThorough, std::unordered_map<uint64_t, uint64_t>& seen) {
   const bool enumerating = c.s.enumerating();
-  int maxLen = enumerating ? (c.shardN >= ENUM_T ? ENUM_LT : ENUM_LQ) : 6;
+  int maxLen = enumerating ? (c.shardN >= ENUM_T ? lenThorough : lenQuick) : 6;
+  if (enumerating && getenv("C14_LEN")) maxLen = atoi(getenv("C14_LEN"));  // scratch experiments only
   int len = 1 + static_cast<int>(c.below(static_cast<uint64_t>(maxLen)));
   bool directed = !c.flag(); int shape = static_cast<int>(c.below(3));
-  World w(c, true, 4, directed);
+  World w(c, true, 4, directed); w.graphOnly = graphOnly;
   c.desc << (directed ? "directed" : "undirected") << " start " << shape << ": ";
   ObsWorld& W = w.obs[0];
   if (shape == 1) {
@@ -553,7 +560,7 @@ LAW(E_sequences, ENUM, ENUM_Q, ENUM_T, 0, NT, 5) {
     w.stepOp();
     if (i == 0) c.shardPoint();  // the description so far: configuration and first operation (not the length)
     if (!enumerating) { w.checkAll(); continue; }
-    std::string key = w.stateKey(); uint64_t ph = vf::hashStr(c.desc.str());
+    uint64_t key = vf::hashStr(w.stateKey()), ph = vf::hashStr(c.desc.str());
     auto it = seen.find(key);
     if (i + 1 < len) { if (it == seen.end() || it->second != ph) throw vf::Skip(); }  // not the first path to this state: explored elsewhere
     else if (it == seen.end()) seen.emplace(key, ph);
@@ -562,6 +569,13 @@ LAW(E_sequences, ENUM, ENUM_Q, ENUM_T, 0, NT, 5) {
   c.desc << " [" << len << " op(s)]";
   c.nt(w.ntDelete || w.ntDirection || w.illRaised > 0);
 }
+// every operation (graph, observer, copy/assign/drop): length <= 2 quick, <= 3 thorough
+LAW(E_sequences, ENUM, 16, ENUM_T, 0, NT, 5) { static std::unordered_map<uint64_t, uint64_t> seen; sequences(c, false, 2, 3, seen); }
+// operations on the graph only (the observer of the start configuration looks on): length <= 3 quick, <= 4 thorough
+LAW(E_graph_sequences, ENUM, 16, ENUM_T, 0, NT, 5) { static std::unordered_map<uint64_t, uint64_t> seen; sequences(c, true, 3, 4, seen); }
+
+// The laws allocate many small containers per case: keep the allocation stack traces of ASan short (detection is unchanged).
+extern "C" const char* __asan_default_options() { return "malloc_context_size=3"; }
 
 static struct Init { Init() { vf::G().resetHook = [] { vf::quietBpp(); vf::installAudit(); }; } } init_;
 VF_MAIN("C14")
